@@ -325,6 +325,18 @@ def cases(ctx):
         p0 = rng.randrange(0, n // 4 - 11)
         hx = hx[:-6] + hx[p0:p0 + 6]
         yield "exact", {"n": n, "x": hx, "legacy": (k % 10 == 0), "case": "lower" if k % 3 == 0 else "upper", "echo": 1}
+    # strings with internal structure: periodic, two equal halves, mirrored
+    for k in range(ctx.share(4000 if quick else 40000)):
+        L = rng.choice((14, 28))
+        if k % 3 == 0:
+            per = rng.choice([p_ for p_ in (1, 2, 4, 7, 14) if L % p_ == 0])
+            hx = ("%0*X" % (per, rng.getrandbits(4 * per))) * (L // per)
+        elif k % 3 == 1:
+            hx = ("%0*X" % (L // 2, rng.getrandbits(2 * L))) * 2
+        else:
+            h_ = "%0*X" % (L // 2, rng.getrandbits(2 * L))
+            hx = h_ + h_[::-1]
+        yield "exact", {"n": 4 * L, "x": hx, "legacy": (k % 10 == 0), "case": ("upper", "lower", "mixed")[k % 3], "sibling": k % 5 == 0}
     # --- closure / linearity
     for k in range(ctx.share(20000 if quick else 80000)):
         n = rng.choice((56, 112))
